@@ -22,3 +22,6 @@ PROP = {
 }
 
 PROP['rule'] += " Skippers: epsilon, space, char_set{' '}, literal(' '), *literal(' '), literal>>literal, *(literal>>literal), char_set>>literal, *char_set; the quick tier runs all nine for grammars of up to 2 nodes (wchar_t: 1 node) and five of them for 3 nodes."
+
+PROP['rule'] += (" Scale lattice: *char_ on 0..2^20 characters and the space() skipper in front of a literal on 0..2^20 blanks (a repetition "
+                 "whose stack use grows with the input dies under ASan).")
